@@ -34,6 +34,7 @@ type job struct {
 	startFamily string
 	startIndex  int
 	attempt     int
+	race        bool // run with the race-detector build
 }
 
 type knownFinding struct {
@@ -91,7 +92,7 @@ func Drive(spec *Spec, tier string, seed uint64, exe, raceExe string) int {
 	for _, f := range spec.Families {
 		if f.Isolated {
 			for i := 0; i < f.N(tier); i++ {
-				jobs = append(jobs, job{tag: fmt.Sprintf("iso-%s-%d", f.Name, i), onlyFamily: f.Name, onlyIndex: i})
+				jobs = append(jobs, job{tag: fmt.Sprintf("iso-%s-%d", f.Name, i), onlyFamily: f.Name, onlyIndex: i, race: f.Race})
 			}
 		} else if f.N(tier) > 0 {
 			hasShared = true
@@ -118,13 +119,21 @@ func Drive(spec *Spec, tier string, seed uint64, exe, raceExe string) int {
 		go func(j job) {
 			defer wg.Done()
 			defer func() { <-sem }()
-			runJob(spec, m, &mu, j, tier, seed, nshards, outDir, workerExe, deadline)
+			jexe := workerExe
+			if j.race {
+				jexe = raceExe
+			}
+			runJob(spec, m, &mu, j, tier, seed, nshards, outDir, jexe, deadline)
 		}(j)
 	}
 	wg.Wait()
 
 	mergeStates(m, outDir)
-	if spec.Race {
+	anyRace := spec.Race
+	for _, f := range spec.Families {
+		anyRace = anyRace || f.Race
+	}
+	if anyRace {
 		m.Races = parseRaceLogs(outDir)
 		m.Counters["race_reports_raw"] = int64(len(m.Races))
 	}
@@ -644,7 +653,7 @@ func Replay(specs map[string]*Spec, path, exe, raceExe string) int {
 	os.RemoveAll(outDir)
 	os.MkdirAll(outDir, 0o755)
 	wexe := exe
-	if spec.Race {
+	if spec.Race || familyByName(spec, rp.Family).Race {
 		wexe = raceExe
 	}
 	m := &Merged{Spec: spec, Tier: rp.Tier, Seed: rp.Seed, Counters: map[string]int64{}, Facts: map[string]map[string]string{}, Distinct: map[uint64]struct{}{}, Extra: map[string]any{}}
